@@ -11,6 +11,15 @@ def sha(prefix):
     raise SystemExit("no commit with subject prefix: " + prefix)
 
 FIXED = [
+ ("KF-C16-1", "C16", "C16-search-paging-skips-position", "fix: remote stream_search returns the proper next_search_idx",
+  "stream_search returned next_search_idx one position too far when a page was full, so paging with the continuation position never examined one stream position per page (4-message stream, page size 2 from position 1: match at position 3 never reported)",
+  "replays/examples/C16-search-paging.json"),
+ ("KF-C16-2", "C16", "C16-search-in-unfiltered-stream-empty", "fix: remote stream_search works for streams without filters",
+  "stream_search on a stream without active filters iterated the (empty) filtered list and never returned a match", "replays/examples/C16-search-unfiltered.json"),
+ ("KF-C16-3", "C16", "C16-index-lookup-in-unfiltered-stream", "fix: remote stream_binary_search by index works for streams without filters",
+  "stream_binary_search index=N on a stream without active filters searched the empty filtered list and always returned position 0", "replays/examples/C16-lookup-unfiltered.json"),
+ ("KF-C16-4", "C16", "C16-query-ends-before-parsing-finished", "fix: remote queries are done only once the parser has finished",
+  "a query sent while the file was still being parsed was declared finished in the first server loop iteration without new messages (e.g. before the first batch arrived): unfiltered query with window [1,34) on a 3-message file received 0 of 2 messages", "replays/examples/C16-query-ends-before-parsed.json"),
  ("KF-C15-1", "C15", "C15-stream-search-without-params", "fix: remote stream_search without search params",
   "'stream_search <id>' for an existing stream without a JSON body panicked (params.split_once(' ').unwrap()) and killed the connection thread", None),
  ("KF-C15-2", "C15", "C15-one-pass-stream-after-drain", "fix: remote rejects new streams in one_pass_streams mode",
